@@ -17,7 +17,7 @@ from usim._primitives.context import CancelScope
 from ..engine import EQ, GE, LE, LT, GT, AND, OR, NOT
 from ..explore import Family
 from ..kit import Log, simulate, now, classify_run_exception, Fault, UserErr, at_cp
-from ..ops import World, OPS, make_op
+from ..ops import World, OPS, RARE, make_op
 from ..probe import Probe
 
 BOUNDS = ('victim = 1 op (thorough: 2 ops in sequence) out of 33; all numeric arguments symbolic '
@@ -124,6 +124,14 @@ FAMILIES = [
            thorough=dict(names=OPS, fault_kinds=ALLF, nops=1, pmax=3),
            reach=OPS + ['none', 'cancel', 'interrupt', 'close', 'cancel+close'],
            bounds='one op, all attackers'),
+    Family('rare_ops', fam_kernel,
+           quick=dict(names=RARE, fault_kinds=[Fault.NONE, Fault.CANCEL, Fault.CLOSE], nops=1,
+                      pmax=1, placements=False),
+           thorough=dict(names=RARE, fault_kinds=ALLF, nops=1, pmax=2),
+           reach=RARE,
+           bounds='first() with a backlog and an activity failing in two stages (5 free delays); a '
+                  'task with a start delay cancelled before / after its wrapper ran while the scope '
+                  'body ends before / after the start date'),
     Family('two_ops', fam_kernel,
            thorough=dict(names=['sleep', 'after', 'flag.set', 'await flag', 'await f1&f2',
                                 'tracked.set', 'await tracked>=x', 'lock', 'queue.put',
